@@ -94,6 +94,9 @@ Prefix == CASE PrefixId = "vac" -> <<>>
                                       Op("Dgate", <<Q(1, 4), a345>>, <<0>>), Op("LossChannel", <<Q(4, 5)>>, <<2>>) >>
             [] PrefixId = "p3"  -> << Op("Sgate", <<Q(4, 3), A0>>, <<0>>), Op("BSgate", <<a345, A0>>, <<0, 2>>),
                                       Op("Dgate", <<Q(1, 4), APi2>>, <<1>>), Op("BSgate", <<a435, APi2>>, <<2, 1>>) >>
+            \* pure, modes 0 and 1 entangled with each other only: the pair (0, 1) has a pure reduced state
+            [] PrefixId = "p2"  -> << Op("Sgate", <<Q(4, 3), A0>>, <<0>>), Op("BSgate", <<a345, A0>>, <<0, 1>>),
+                                      Op("Dgate", <<Q(1, 4), APi2>>, <<2>>) >>
             \* histories with a deleted mode: every operation is then applied through the simulators' mode maps
             [] PrefixId = "x3"  -> << Op("S2gate", <<Q(4, 3), A0>>, <<0, 1>>), Op("BSgate", <<a345, APi2>>, <<1, 2>>),
                                       Op("Dgate", <<Q(1, 4), a345>>, <<2>>), Op("Del", <<>>, <<0>>) >>
